@@ -16,8 +16,8 @@ from .. import env, gen, harness
 from ..harness import Ctx, activate, build_config, scramble_rng
 from ..props import run_result
 
-ROOTS = ["sea", "de", "shade", "sobol", "lhs", "mwea", "sea_cx", "de_dither", "ga", "sea_adapt"]
-LEAVES = ["cma", "cma_warm", "shade", "local", "de", "cma_stds", "sea", "local_maxiter", "mwea"]
+ROOTS = ["sea", "de", "shade", "sobol", "lhs", "mwea", "sea_cx", "de_dither", "ga", "sea_adapt", "custom"]
+LEAVES = ["cma", "cma_warm", "shade", "local", "de", "cma_stds", "sea", "local_maxiter", "mwea", "custom", "custom_ea", "custom_ea2"]
 
 
 def make_case(seed, idx, tier):
@@ -26,7 +26,7 @@ def make_case(seed, idx, tier):
         "dim": (2, 3),
         "root": ROOTS[idx % len(ROOTS)],
         "leaf": LEAVES[idx % len(LEAVES)],
-        "inner": rng.choice(["cma", "shade", "de", "sea"]),
+        "inner": rng.choice(["cma", "shade", "de", "sea", "custom_ea"]),
         "levels": [2, 2, 3],
         "gsc": "melimit",
         "lscs": ["dontstop", "melimit", "user", "children"],
@@ -234,6 +234,40 @@ def run_case(desc):
                 cov["futures_differ_from_live_continuation"] += 1
             else:
                 cov["futures_identical_to_live_continuation"] += 1
+        # ---- the crash-recovery use case: one snapshot of the run is loaded and continued in a *fresh interpreter*
+        import json as _json
+        import subprocess
+
+        if len(snaps) >= 2:
+            k, path, rng_state, live = snaps[(desc.get("np_seed", 0) % (len(snaps) - 1))]
+            envv = dict(os.environ)
+            envv["PYTHONPATH"] = env.VERIF_DIR + os.pathsep + envv.get("PYTHONPATH", "")
+            envv["VERIF_REPO"] = env.REPO
+            try:
+                p = subprocess.run([env.PYTHON, "-m", "vlib.monitors.c19sub"], input=_json.dumps({"path": path, "desc": desc}), capture_output=True, text=True, timeout=180, env=envv, cwd=env.VERIF_DIR)
+                if p.returncode != 0:
+                    raise harness.HarnessError("c19 subprocess failed: " + p.stderr[-1500:])
+                sub = _json.loads(p.stdout.strip().split("\n")[-1])
+                cov["fresh_process_loads"] += 1
+                if "load_error" in sub:
+                    viol("pickle_load failed in a fresh interpreter", k=k, error=sub["load_error"], engines=gen.engine_mix(desc))
+                else:
+                    s2 = sub["snapshot"]
+                    if snapshot_digest(_json.loads(_json.dumps(s2))) != snapshot_digest(_json.loads(_json.dumps(live))):
+                        viol("tree loaded in a fresh interpreter is not observationally identical to the tree that was dumped", k=k, differences=diff_snapshots(_json.loads(_json.dumps(live)), s2), engines=gen.engine_mix(desc))
+                    for v in sub["violations"]:
+                        v = dict(v)
+                        v["property"] = "C19"
+                        v["key"] = "continued run (fresh interpreter) of a loaded tree: " + v["key"]
+                        ctx.violations.append(v)
+                    if sub["aborted"] and sub["aborted"][0] == "exception":
+                        viol("continued run of a tree loaded in a fresh interpreter raised", k=k, error=sub["aborted"], engines=gen.engine_mix(desc))
+                    elif not sub["aborted"]:
+                        cov["fresh_process_continued_runs"] += 1
+                        if sub.get("sprouted_again"):
+                            cov["fresh_process_continued_run_sprouted_again"] += 1
+            except subprocess.TimeoutExpired:
+                cov["fresh_process_timeouts"] += 1
         res["violations"] = ctx.violations
         res["sample"]["snapshots"] = {"K": K, "continued": int(cov["continued_runs"]), "objective_form": desc.get("objective_form")}
         return res
